@@ -190,15 +190,17 @@ async fn longest_chain_rule_contract() {
             if id > shared { old_chain.insert(0, b.hash); }
             bc.blocks.insert(b.hash, b);
         }
+        // (gap > 0: the candidate segment is not connected to the chain — a block that arrived before its parent)
+        let gap = if rng.below(3) == 0 { 1 + rng.below(3) } else { 0 };
         for k in 1..=(n_new as u64) {
-            let mut b = Block::new(); b.id = shared + k; b.hash = [0x80 + (shared + k) as u8; 32]; b.burnfee = rng.below(50);
+            let mut b = Block::new(); b.id = shared + gap + k; b.hash = [0x80 + (shared + gap + k) as u8; 32]; b.burnfee = rng.below(50);
             new_chain.insert(0, b.hash);
             bc.blocks.insert(b.hash, b);
         }
         let old_bf: u64 = old_chain.iter().map(|h| bc.blocks.get(h).unwrap().burnfee).sum();
         let new_bf: u64 = new_chain.iter().map(|h| bc.blocks.get(h).unwrap().burnfee).sum();
         let tip = shared + n_old as u64;
-        let new_tip = shared + n_new as u64;
+        let new_tip = shared + gap + n_new as u64;
         let expected = old_chain.len() < new_chain.len() && old_bf <= new_bf && tip < new_tip;
         let got = bc.is_new_chain_the_longest_chain(&new_chain, &old_chain);
         if got != expected {
